@@ -86,6 +86,36 @@ def gen_case(rng, wd, job_exe):
     return c
 
 
+def restore_case(w, wd, job_exe):
+    """a recorded case in a new working directory: paths are re-based, the two streams are rebuilt from the job's script"""
+    c = dict(w["case"])
+    old = os.path.dirname(c["cwdfile"])
+    for k in ("ofile", "efile", "ifile", "cwdfile"):
+        if c.get(k):
+            c[k] = os.path.join(wd, os.path.basename(c[k]))
+    steps = c["cmd"].split(" ")[2:]
+    out, err, no, ne = b"", b"", 0, 0
+    for s in steps:
+        if s == "i":
+            data = (w.get("stdin") or "").encode("latin1")
+            open(c["ifile"], "wb").write(data)
+            out += data
+        elif s.startswith("o:"):
+            out += stream("a", int(s[2:]), no)
+            no += int(s[2:])
+        elif s.startswith("e:"):
+            err += stream("A", int(s[2:]), ne)
+            ne += int(s[2:])
+    steps = [("w:" + c["cwdfile"]) if s.startswith("w:") else s for s in steps]
+    c["cmd"] = "exec " + job_exe + " " + " ".join(steps)
+    c["stdout"], c["stderr"] = out, err
+    if c.get("stale"):
+        for f in (c["ofile"], c["efile"]):
+            if f:
+                open(f, "wb").write(b"#" * 300000)
+    return c
+
+
 def request(c, wd):
     l = ["BEGIN:VCALENDAR", "VERSION:2.0", "BEGIN:VTODO", "UID:x13@verif", "SUMMARY:" + c["cmd"], "X-ECHS-SETUID:0", "X-ECHS-SETGID:0",
          "X-ECHS-SHELL:" + c["shell"], "LOCATION:" + wd, "X-ECHS-UMASK:0%o" % c["umask"],
@@ -126,10 +156,13 @@ def judge_blob(what, data, want_out, want_err, c, fail):
         fail("%s-stderr-%s" % (what, kind), "%s: %d bytes of stderr, expected %d (%s)" % (what, len(up), len(exp_up), "wanted" if want_err else "not wanted here"))
 
 
-def run_case(root, part, rng):
+def run_case(root, part, rng, stored=None):
     wd = tempfile.mkdtemp(prefix="c13-")
     try:
-        c = gen_case(rng, wd, build.exe(root, "asan", "h_job"))
+        if stored is None:
+            c = gen_case(rng, wd, build.exe(root, "asan", "h_job"))
+        else:
+            c = restore_case(stored, wd, build.exe(root, "asan", "h_job"))
         req = request(c, wd)
         part.evaluations += 1
         r = echsx.run_echsx(root, req, wd, args=("-v", "-n") if c["norun"] else ("-v",))
@@ -246,7 +279,8 @@ def run_case(root, part, rng):
         part.nontrivial.add("%s %s %s%s%s" % (row, "big" if big else "small", "sig" if c["signal"] else "exit", " norun" if c["norun"] else "",
                                               " stale" if c["stale"] else ""))
         for k, d in fails:
-            part.violation(k, {"input": req, "detail": d, "journal": r.journal[-1200:], "shim_log": r.log[:10], "stderr": r.stderr[-500:],
+            part.violation(k, {"input": req, "detail": d, "case": {kk: vv for kk, vv in c.items() if kk not in ("stdout", "stderr")},
+                               "stdin": open(c["ifile"], "rb").read().decode("latin1") if c["ifile"] and os.path.exists(c["ifile"]) else None, "journal": r.journal[-1200:], "shim_log": r.log[:10], "stderr": r.stderr[-500:],
                                "summary": "%s (row OFILE/EFILE/MAIL-OUT,ERR = %s, %d+%d bytes)" % (d, row, len(c["stdout"]), len(c["stderr"]))})
         if not fails and len(part.samples) < 2 and big and r.mail:
             part.sample({"row": row, "stdout_bytes": len(c["stdout"]), "stderr_bytes": len(c["stderr"]), "exit": c["exit"], "signal": c["signal"],
@@ -380,7 +414,17 @@ def main(tier):
 
 
 def replay(path):
+    """re-run the recorded case (same routing row, same job script) on the current tree and judge it again"""
     w = json.load(open(path))
-    print(w.get("input", "")[:3000])
-    print(w.get("detail"))
-    return 1
+    root = build_or_die()
+    print("recorded:", w.get("key"), "|", (w.get("detail") or w.get("summary") or "")[:300])
+    if "case" not in w:
+        print(w.get("input", "")[:2000])
+        return 1
+    part = Part()
+    run_case(root, part, None, stored=w)
+    for k, (n, wit) in part.viol.items():
+        print("now:", k, (wit.get("detail") or "")[:300])
+    if not part.viol:
+        print("now: files, mail and journal are what the routing model predicts")
+    return 1 if part.viol else 0
